@@ -5,6 +5,7 @@ Property theorems only; helper lemmas are in the `Paloma.Libcons.Lemmas` section
 the line and are never restated as property theorems.
 -/
 import PalomaModel.Model.Libcons
+import PalomaModel.Gen.Consts
 
 namespace Paloma.Libcons
 
@@ -264,6 +265,12 @@ theorem winner_unique (s : Snapshot) (evs : List Evidence)
     have hle := sumOver_le_total s.vals _ hdis
     rw [sumOver_append, ← shareSum_eq, ← shareSum_eq] at hle
     omega
+
+/-- **quorum_as_in_source.** `consensusPower.consensus` in the current source is
+`3 * sum >= 2 * total` (factors and comparator regenerated by the extractor on every run). -/
+theorem quorum_as_in_source :
+    Paloma.Gen.Consts.consensusSumFactor = 3 ∧ Paloma.Gen.Consts.consensusTotalFactor = 2 ∧
+    Paloma.Gen.Consts.consensusComparator = "GTE" := by decide
 
 /-- **no_quorum_no_winner.** Below 2/3 over *all* evidence the verdict is `notAchieved`. -/
 theorem no_quorum_no_winner (s : Snapshot) (evs : List Evidence)
